@@ -191,7 +191,7 @@ def build(spec):
             ld = N(fd.get("load", ["1/20"] * len(fb[f]))[i])
             arr = np.array([ld] * nprof, dtype=object) if exact else np.ones(nprof) * ld
             b.add_load_data(pload_data=arr, qload_data=arr / 2 if not exact else np.array([ld / 2] * nprof, dtype=object),
-                            cost_function=CostFunction(A=fd.get("cost", [1] * len(fb[f]))[i], B=1))
+                            cost_function=CostFunction(A=N(str(fd.get("cost", [1] * len(fb[f]))[i])), B=N(str(fd.get("costB", 1)))))
     for P, pr in prods:
         v = N(pr["p"]); w = N(pr.get("q", "0"))
         P.add_prod_data(pprod_data=(np.array([v] * nprof, dtype=object) if exact else np.ones(nprof) * v),
